@@ -304,6 +304,9 @@ def gasol_main(argv, inputs, want, capture=True):
     """the real CLI entry (main_gasol) inside the child.  inputs: {relative name: text};
     want: names of files to read back.  returns dict(exit, stdout, files)."""
     import gasol_asm
+    for name in want:
+        if os.path.exists(name):
+            os.remove(name)
     for name, text in inputs.items():
         with open(name, "w") as f:
             f.write(text)
